@@ -385,6 +385,21 @@ class RenderContext:
             finally:
                 self.loops.pop()
 
+    @contextmanager
+    def loop_iterations(self, length: int) -> Iterator[RenderContext]:
+        """Count _length_ repetitions of a block towards the loop iteration limit.
+
+        For constructs that repeat a block without pushing a `ForLoop` on to the
+        loop stack. Everything rendered inside the `with` block, including loops
+        in partial templates and macros, is multiplied by _length_.
+        """
+        carry = self.loop_iteration_carry
+        self.loop_iteration_carry = carry * length
+        try:
+            yield self
+        finally:
+            self.loop_iteration_carry = carry
+
     def parentloop(self) -> Union[Undefined, object]:
         """Return the last ForLoop object from the loop stack."""
         try:
